@@ -18,7 +18,7 @@ enum { A14_MAXOPS = 18, A14_SLOTS = 8 };
 struct A14Plan
 {
   int mode;        // 0 raw alloc/free history, 1 AlignedVector history, 2 allocator edge requests
-  int elem;        // vector element size selector: 0..4 -> 1,4,12,16,64 bytes
+  int elem;        // vector element size selector: 0..4 -> 1,4,12,16,64 bytes; 5: struct with a std::string; 6: value class constructible from a list of itself
   int nops;
   A14Op ops[A14_MAXOPS];
   long fail_at;    // nth allocation inside the fault window fails (-1: none)
